@@ -53,6 +53,23 @@ class PParentInit:
     def pcall(self, eng, st, pos, kw, fx):
         eng.stats["assumed"].add("A-PARENT-CTOR")
         obj = eng.to_val(st, pos[0])
+        # what is handed to the parent is what its signature advertises (C09/C17: the generated constructor takes the init-enabled
+        # attributes and the key, nothing else): every keyword is an init-enabled attribute of the instance's metadata
+        pk = kw.get("**") if isinstance(kw, dict) else None
+        if pk is not None and "instance_metadata" in st.env and "parent_metadata" in st.env:
+            pk = eng.to_val(st, pk)
+            im, pm = eng.to_val(st, st.env["instance_metadata"]), eng.to_val(st, st.env["parent_metadata"])
+            k = z3.Const("k!adv", Val)
+            has = st.get("dhas", a_of(pk))
+            eng.oblige(st, "call-pre.parent-constructor.c09.advertised-keywords",
+                       z3.ForAll([k], z3.Implies(z3.Select(has, k), z3.Or(
+                           kn(k) == kn(fld(st, pm, "key")),
+                           z3.And(rec(st, im, k)[0], fld(st, rec(st, im, k)[1], "init") == vbool(z3.BoolVal(True)))))),
+                       kind="call-pre")
+            # a constructor is invoked for the class that owns the metadata it was generated from - with A-MRO (every class occurs
+            # once along the MRO) no constructor gets a second turn through a plain subclass that merely inherits it
+            eng.oblige(st, "call-pre.parent-constructor.c09.own-constructor", owner_of(eng, st, pm) == eng.to_val(st, self.parent),
+                       kind="call-pre")
         ok = st.fork()
         eng.check_write(ok, a_of(obj), "parent constructor")
         d0 = ok.get("idict", a_of(obj))
@@ -81,6 +98,13 @@ def install_hooks(models):
     sc.install_hooks(models)
     models.method_hooks["mro"] = mro_hook
     models.attr_hooks[("pre", "__init__")] = parent_init_hook
+
+
+def owner_of(eng, st, m):
+    """m.owner as attribute lookup on a foreign object reads it"""
+    sid = STR.sid("owner")
+    iv = z3.If(is_ref(m), z3.Select(st.get("idict", a_of(m)), sid), ABSENT)
+    return z3.If(is_absent(iv), sc.cls_level(eng, st, m, sid), iv)
 
 
 def rec(st, m, k):
@@ -264,6 +288,13 @@ class Init(SpecArgs):
             z3.Select(st.get("dhas", K), k) == z3.Select(pre.get("dhas", K), k),
             z3.Select(st.get("dval", K), k) == z3.Select(pre.get("dval", K), k))))
 
+    def advertised(c, st, pk):
+        """every keyword collected for the parent is an init-enabled attribute of the instance's metadata"""
+        m = c.con.meta(c)
+        k = z3.Const("k!adv1", Val)
+        has = st.get("dhas", a_of(pk))
+        return z3.ForAll([k], z3.Implies(z3.Select(has, k), z3.And(rec(st, m, k)[0], fld(st, rec(st, m, k)[1], "init") == vbool(z3.BoolVal(True)))))
+
     def inv0(lc, st, i):
         c = lc.entry
         eng, pre, con = lc.eng, c.pre, c.con
@@ -295,6 +326,8 @@ class Init(SpecArgs):
                 ("parent-metadata", eng.to_val(st, st.env["parent_metadata"]) == eng.to_val(lc.pre, lc.pre.env["parent_metadata"])),
                 ("scratch", z3.And(pk == eng.to_val(lc.pre, lc.pre.env["parent_kwargs"]), is_ref(pk), a_of(pk) >= pre.alloc,
                                    st.get("cls_of", a_of(pk)) == cid("dict"))),
+                ("c09.advertised", Init.advertised(c, st, pk)),
+                ("c09.own", owner_of(eng, st, eng.to_val(st, st.env["parent_metadata"])) == parent),
                 ("no-instance-meta", is_absent(fld(st, c.self, "__spec_class__")))]
 
     def mod1(lc, pre):
